@@ -83,10 +83,16 @@ def drive(rec):
                 return {"exc": type(ex).__name__, "cov": 0, "vdw": 0, "mass": 0, "name": "", "sym": ""}
         e0 = Element.from_atomic_number(z)
         rows.append(row(lambda: (e0.cov, e0.vdw, e0.mass, e0.name, e0.symbol)))
-        e1 = Element[e0.symbol]
-        rows.append(row(lambda: (e1.covalent_radius, e1.vdw_radius, e1.mass, e1.name, e1.symbol)))
-        e2 = Element[e0.symbol.upper() + "7"]
-        rows.append(row(lambda: (e2.cov, e2.vdw, e2.mass, e2.name, e2.symbol)))
+
+        def by_symbol():
+            e1 = Element[e0.symbol]
+            return (e1.covalent_radius, e1.vdw_radius, e1.mass, e1.name, e1.symbol)
+
+        def by_label():
+            e2 = Element[e0.symbol.upper() + "7"]
+            return (e2.cov, e2.vdw, e2.mass, e2.name, e2.symbol)
+        rows.append(row(by_symbol))
+        rows.append(row(by_label))
         a = np.array([z])
         rows.append(row(lambda: (E.cov_radii(a)[0], E.vdw_radii(a)[0], e0.mass, E.element_names(a)[0], E.element_symbols(a)[0])))
         t["rows"] = rows
